@@ -636,6 +636,9 @@ class Folder:
                 from .absint import aobj_member
 
                 return aobj_member(self, base, e.attr)
+            if isinstance(base, (ClassInfo, _TypeOf)) and self.repo is not None:
+                # a member of a class that is itself computed: `(A, B)[flag].helper`, `type(x).CONSTANT`, `table[key].make`
+                return Folder({"__k": base.cls if isinstance(base, _TypeOf) else base}, self.repo, self.mod, self.cls, self.hook).fold(ast.copy_location(ast.Attribute(value=ast.Name(id="__k", ctx=ast.Load()), attr=e.attr, ctx=ast.Load()), e))
             raise Unfoldable(unparse(e))
         if isinstance(e, ast.BinOp):
             l, r = self.fold(e.left), self.fold(e.right)
@@ -1574,6 +1577,21 @@ class Folder:
             for part in self.fold(args[0]):
                 out_c.extend(list(part))
             return out_c
+        if name in ("itertools.islice", "itertools.zip_longest", "itertools.pairwise") and args and "itertools" not in self.env:
+            import itertools as _it
+
+            vals_i = [self.fold(a) for a in args]
+            kw_i = {k.arg: self.fold(k.value) for k in e.keywords if k.arg}
+            if name == "itertools.islice":
+                src = vals_i[0]
+                if isinstance(src, _Eager):
+                    src = src.cursor()
+                if any(isinstance(v_, Abstract) for v_ in vals_i[1:]):
+                    raise Unfoldable(unparse(e))
+                # (an iterator is consumed as far as the slice reads, a sequence is not touched)
+                return _Eager(list(_it.islice(src if hasattr(src, "__next__") else iter(list(src)), *vals_i[1:])))
+            seqs = [list(v_.cursor() if isinstance(v_, _Eager) else v_) for v_ in vals_i]
+            return _Eager(list(getattr(_it, name.split(".")[1])(*seqs, **kw_i)))
         if name in ("itertools.product", "itertools.combinations", "itertools.permutations", "itertools.combinations_with_replacement", "itertools.chain"):
             import itertools as _it
 
@@ -1903,6 +1921,11 @@ class Folder:
                 fv1 = Folder({}, self.repo, self._owner_module(e.func), None, self.hook).fold(r1)
                 if isinstance(fv1, (_Lambda, _LocalFn, _Partial)) or type(fv1).__name__ in ("_BoundMethod", "AObj") or (isinstance(fv1, Abstract) and callable(fv1)):
                     return call_value(self, fv1, [self.fold(a) for a in args], {k.arg: self.fold(k.value) for k in e.keywords if k.arg})
+                if type(fv1).__module__ == "operator" and type(fv1).__name__ in ("methodcaller", "attrgetter", "itemgetter") and len(args) == 1:
+                    # (a rule's hook answered operator.methodcaller(...) with the real thing: apply it to a plain value)
+                    v1_ = self.fold(args[0])
+                    if not isinstance(v1_, Abstract):
+                        return fv1(v1_)
             if isinstance(r1, ClassInfo):
                 # a class of the repository that no rule-specific hook has claimed: the instance its constructor builds
                 from .absint import _RepoShim, construct
